@@ -108,7 +108,7 @@ macro_rules! each_enc {
     };
     (@one csr, $E:ty, $out:expr, $prop:expr, $ag:expr, $rng:expr, |$g:ident, $fwd:ident, $inv:ident| $body:expr) => {
         if $ag.is_simple() {
-            for h in 0..2 {
+            for h in 0..3 {
                 if $ag.directed { each_enc!(@emit $out, $prop, $ag, "csr", h, build_csr::<Directed, $E>($ag, h, $rng), |$g, $fwd, $inv| $body) }
                 else { each_enc!(@emit $out, $prop, $ag, "csr", h, build_csr::<Undirected, $E>($ag, h, $rng), |$g, $fwd, $inv| $body) }
             }
